@@ -24,7 +24,7 @@ theorem pinv_init_created {deps : List (CompId × Mask)} {k : Nat} {initial : Ma
       (x ∈ initial ∧ (info x).callbacks = true) := by
     intro x; rw [List.mem_filter]; simp
   refine
-  { comps := ?_, sorted := hm, closedF := hcl, srcSub := fun q hq => (by cases hq), srcNodup := List.nodup_nil
+  { comps := ?_, sorted := hm, closedF := Or.inr hcl, srcSub := fun q hq => (by cases hq), srcNodup := List.nodup_nil
     gone := ?_, srcRepl := fun q hq => (by cases hq), net := ?_, repl := fun x hx => (by cases hx)
     nocb := ?_, other := ?_, alive := rfl }
   · show rebuild info [] initial [] = initial.map _
